@@ -591,6 +591,9 @@ async def script(loop, ctx):
     for kk in ("bytes_parsed",):
         pass
     cx.stats["responses_parsed"] = sum(v for kk, v in rig.counts.items() if kk.startswith("resp:"))
+    for kk, v in rig.counts.items():
+        if kk.startswith("leniency:"):
+            cx.stats[kk] = cx.stats.get(kk, 0) + v
     cx.stats["octets_parsed"] = sum(s.pos for s in rig.sessions)
     cx.stats["literals_checked"] = cx.stats.get("eq_size", 0) * 6
     for kk, v in cx.stats.items():
